@@ -39,6 +39,14 @@ FailedProd(r) ==
   \cup (IF \A j \in DOMAIN r.res : Len(r.res[j]) = Len(A) /\ \A p \in DOMAIN A : Len(r.res[j][p]) = Len(B)
         THEN {} ELSE {"result_shape"})
 
+\* kind "ints": bvectors_to_ints on a long list; digits[j] = binary expansion of the
+\* j-th integer returned (<<>> if it is negative or has more than 2n digits)
+FailedInts(r) ==
+     (IF Len(r.digits) = Len(r.vecs) /\ \A j \in DOMAIN r.vecs : r.digits[j] = r.vecs[j]
+      THEN {} ELSE {"bvectors_to_ints_is_the_binary_number_of_each_vector"})
+\cup (IF Len(r.back) = Len(r.vecs) /\ \A j \in DOMAIN r.vecs : r.back[j] = r.vecs[j]
+      THEN {} ELSE {"ints_to_bvectors_inverts_bvectors_to_ints"})
+
 FailedConv(r) ==
   LET a == AsOp(r.a)  n == r.n IN
      (IF r.str_bvector = Str(a, n) THEN {} ELSE {"bvector_to_pauli_string"})
@@ -82,6 +90,7 @@ FailedSparse(r) ==
 
 Failed(r) == CASE r.kind = "prod" -> FailedProd(r)
                [] r.kind = "conv" -> FailedConv(r)
+               [] r.kind = "ints" -> FailedInts(r)
                [] r.kind = "rank" -> FailedRank(r)
                [] r.kind = "sparse" -> FailedSparse(r)
 
